@@ -271,12 +271,12 @@ def register_inputs(w):
         """declared shape of `value` has one entry per dim: an int is that int, a symbolic dim its label"""
         shp = sel(ex.heap_arrays(VALUE, "shape")[0], value_term)
         d = ex.heap_arrays(SHAPE, "dims")
-        tag_o, int_o, str_o, n_o = [sel(x, shp) for x in (d[0], d[1], d[2], d[-1])]
+        tag_o, int_o, sym_o, n_o = [sel(x, shp) for x in (d[0], d[1], d[2], d[-1])]
         tag_i, int_i, sym_i = dims.arrs[0], dims.arrs[1], dims.arrs[2]
         k = z3.Int("k!sc")
         return z3.And(shp != null_of(SHAPE), n_o == dims.length, z3.ForAll([k], z3.Implies(z3.And(0 <= k, k < dims.length), z3.And(
             z3.Implies(sel(tag_i, k) == 0, z3.And(sel(tag_o, k) == 0, sel(int_o, k) == sel(int_i, k))),
-            z3.Implies(sel(tag_i, k) == 1, z3.And(sel(tag_o, k) == 1, sel(str_o, k) == M.label(sel(sym_i, k))))))))
+            z3.Implies(sel(tag_i, k) == 1, z3.And(sel(tag_o, k) == 1, M.symdim_is(ex, sel(sym_o, k), M.label(sel(sym_i, k)))))))))
     w.shape_corresponds = shape_corresponds
 
     # record_symbolic_dim_origins(dims, value): OriginInv is only established if dims ARE the value's declared dims
@@ -329,11 +329,11 @@ def register_inputs(w):
         tag_i, int_i, sym_i, n_i = [sel(x, aval) for x in (a[0], a[1], a[2], a[-1])]
         shp = sel(ex.heap_arrays(VALUE, "shape")[0], value_term)
         d = ex.heap_arrays(SHAPE, "dims")
-        tag_o, int_o, str_o, n_o = [sel(x, shp) for x in (d[0], d[1], d[2], d[-1])]
+        tag_o, int_o, sym_o, n_o = [sel(x, shp) for x in (d[0], d[1], d[2], d[-1])]
         conj = [shp != null_of(SHAPE), n_o == 4, n_i == 4]
         for k, p in enumerate(perm):
             conj.append(z3.Implies(sel(tag_i, p) == 0, z3.And(sel(tag_o, k) == 0, sel(int_o, k) == sel(int_i, p))))
-            conj.append(z3.Implies(sel(tag_i, p) == 1, z3.And(sel(tag_o, k) == 1, sel(str_o, k) == M.label(sel(sym_i, p)))))
+            conj.append(z3.Implies(sel(tag_i, p) == 1, z3.And(sel(tag_o, k) == 1, M.symdim_is(ex, sel(sym_o, k), M.label(sel(sym_i, p))))))
         return z3.And(conj)
 
     def post_bind_input(c: Ctx):
@@ -363,7 +363,7 @@ def register_inputs(w):
         f"{MC}:_LayoutAdapter.bind_input", params={"self": Ref(LAD), "var": Ref(JVAR), "index": Int},
         requires=[("var_has_aval", req_aval), ("len_nonneg", lambda c: inputs_of(c.ex, ctx_of(c))[1] >= 0)],
         ensures=[("nchw_input", post_bind_input)],
-        raises={"ValueError", "TypeError"}, modifies=[(BLD, "inputs"), (BLD, "_var2val"), (VALUE, "type"), (VALUE, "shape"), (VALUE, "name"), (TT, "dtype"), (SHAPE, "dims")],
+        raises={"ValueError", "TypeError"}, modifies=[(BLD, "inputs"), (BLD, "_var2val"), (VALUE, "type"), (VALUE, "shape"), (VALUE, "name"), (TT, "dtype"), (SHAPE, "dims"), ("IrSymDim", "value")],
         ret=NoneT, props=["C12", "C05", "C04"], witnesses=["C12_nchw_symbolic_dims", "D16"],
     ))
 
@@ -414,7 +414,7 @@ def register_inputs2(w):
         f"{MIC}:IRContext.add_input_for_invar", params={"self": Ref(CTX), "var": Ref(JVAR), "index": Int},
         requires=[("len_nonneg", lambda c: inputs_of(c.ex, c["self"].term)[1] >= 0)],
         ensures=[("plain_input", post_add_input)], raises={"TypeError"},
-        modifies=[(BLD, "inputs"), (BLD, "_var2val"), (VALUE, "type"), (VALUE, "shape"), (VALUE, "name"), (TT, "dtype"), (SHAPE, "dims")],
+        modifies=[(BLD, "inputs"), (BLD, "_var2val"), (VALUE, "type"), (VALUE, "shape"), (VALUE, "name"), (TT, "dtype"), (SHAPE, "dims"), ("IrSymDim", "value")],
         ret=Ref(VALUE), props=["C05", "C04"], witnesses=["D7"],
     ))
 
@@ -451,8 +451,8 @@ def register_inputs2(w):
     w.add_contract(Contract(
         f"{MC}:_LayoutAdapter.bind_inputs", params={"self": Ref(LAD), "jpr": Ref(JAXPR), "inputs_as_nchw": Seq(Int)},
         requires=[("vars_have_avals", req_avals)], ghost_init=ginit,
-        loops={0: LoopSpec(invariant=inv_bind_inputs, label="invars", havoc_fields=[(BLD, "inputs"), (BLD, "_var2val"), (VALUE, "type"), (VALUE, "shape"), (VALUE, "name"), (TT, "dtype"), (SHAPE, "dims")])},
+        loops={0: LoopSpec(invariant=inv_bind_inputs, label="invars", havoc_fields=[(BLD, "inputs"), (BLD, "_var2val"), (VALUE, "type"), (VALUE, "shape"), (VALUE, "name"), (TT, "dtype"), (SHAPE, "dims"), ("IrSymDim", "value")])},
         ensures=[("one_graph_input_per_argument", post_bind_inputs)], raises={"ValueError", "TypeError"},
-        modifies=[(BLD, "inputs"), (BLD, "_var2val"), (VALUE, "type"), (VALUE, "shape"), (VALUE, "name"), (TT, "dtype"), (SHAPE, "dims")],
+        modifies=[(BLD, "inputs"), (BLD, "_var2val"), (VALUE, "type"), (VALUE, "shape"), (VALUE, "name"), (TT, "dtype"), (SHAPE, "dims"), ("IrSymDim", "value")],
         ret=NoneT, props=["C05", "C12"], witnesses=["D7", "C12_nchw_symbolic_dims"],
     ))
